@@ -675,5 +675,5 @@ Proof.
   rewrite forallb_forall in H. apply (H (q, m)). apply in_prod; assumption.
 Qed.
 
-Lemma enum_sizes : length enum_q = 231 /\ length enum_nonq = 66.
+Lemma enum_sizes : length enum_q = 468 /\ length enum_nonq = 66.
 Proof. vm_compute. split; reflexivity. Qed.
